@@ -144,6 +144,11 @@ def labelVals : Stmt → Option (List String)
   | .hasLabel ls => some ls
   | _ => some []
 
+/-- `dedupStringSlice` (engine/core/util.go): first occurrences, in order. -/
+def dedup : List String → List String
+  | [] => []
+  | x :: xs => x :: (dedup xs).filter (fun y => !(y == x))
+
 /-- The label half of the rewrite (`labelOpt`), tried when no id lookup was produced. -/
 def rewriteLabel (tail : List Stmt) : Option (List Stmt) :=
   match firstIdx Lead.isLabel tail with
@@ -152,7 +157,7 @@ def rewriteLabel (tail : List Stmt) : Option (List Stmt) :=
     match labelVals (tail.getD k .unknown) with
     | none => none
     | some ls =>
-      let ls := ls.eraseDups
+      let ls := dedup ls
       if ls.isEmpty then some (.V [] :: tail) else some (.lookupVertsIndex ls :: tail.eraseIdx k)
 
 /-- The second half of `IndexStartOptimize` on `V() :: tail` once no `and` is left to flatten. -/
@@ -163,7 +168,7 @@ def rewriteTail (tail : List Stmt) : Option (List Stmt) :=
     match idVals (tail.getD k .unknown) with
     | none => none
     | some ids =>
-      let ids := ids.eraseDups
+      let ids := dedup ids
       if ids.isEmpty then rewriteLabel tail else some (.V ids :: tail.eraseIdx k)
 
 /-- `IndexStartOptimize` (`none` = the optimizer panics).  The recursive call re-scans the
